@@ -481,7 +481,7 @@ func c17Run(b core.Batch, r *core.Recorder) {
 func c17Plan(tier string, seed int64) []core.Batch {
 	n, depth, rt, ov := 20000, 4, 150, 40
 	if tier == "thorough" {
-		n, depth, rt, ov = 500000, 5, 3000, 600
+		n, depth, rt, ov = 2000000, 6, 10000, 2000
 	}
 	return []core.Batch{
 		{Name: "bytesize", TimeoutS: 1800, Args: map[string]any{"part": "size", "n": n, "depth": depth}},
@@ -502,6 +502,6 @@ func init() {
 		Plan:        c17Plan,
 		Run:         c17Run,
 		Parallel:    3,
-		Floors:      map[string]map[string]int64{"quick": {"configs_round_tripped": 100, "override_histories": 30}, "thorough": {"configs_round_tripped": 2000, "override_histories": 500}},
+		Floors:      map[string]map[string]int64{"quick": {"configs_round_tripped": 100, "override_histories": 30}, "thorough": {"configs_round_tripped": 8000, "override_histories": 1800}},
 	})
 }
